@@ -53,11 +53,11 @@ var accTracked = map[string][]string{
 // mutex fields → lock name. muxerStream.mutex / muxerSegmenter.mutex are pointers: every literal of these
 // structs must initialise them with &m.mutex (checked below).
 var accLockOf = map[string]string{
-	"Muxer.mutex":       "M",
-	"muxerStream.mutex": "M",
+	"Muxer.mutex":          "M",
+	"muxerStream.mutex":    "M",
 	"muxerSegmenter.mutex": "M", // exists only once F14a is repaired (repo_patches/fix-F14a.diff)
-	"muxerServer.mutex": "S",
-	"fileDisk.mutex":    "F",
+	"muxerServer.mutex":    "S",
+	"fileDisk.mutex":       "F",
 }
 
 // user callbacks (called, never resolved)
@@ -157,17 +157,17 @@ type accFunc struct {
 type accX struct {
 	repo     string
 	fset     *token.FileSet
-	pkgs     map[string]*accPkg   // rel -> package
-	byPath   map[string]*accPkg   // import path -> package
-	fieldAt  map[string]string    // position of field declaration -> "Type.field"
+	pkgs     map[string]*accPkg // rel -> package
+	byPath   map[string]*accPkg // import path -> package
+	fieldAt  map[string]string  // position of field declaration -> "Type.field"
 	fieldTyp map[string]types.Type
-	structOf map[string]bool      // "pkgname.Type" tracked
-	funcs    map[string]*accFunc  // key -> function
-	order    []string             // keys in discovery order
-	methods  map[string][]string  // method name -> keys of concrete methods (all parsed packages)
-	typeMeth map[string][]string  // "pkgrel:Type" -> method keys
-	handlers []string             // handler roots (closures and method values given to registerPath)
-	fnFields map[string][]string  // function-typed tracked field -> keys assigned to it
+	structOf map[string]bool     // "pkgname.Type" tracked
+	funcs    map[string]*accFunc // key -> function
+	order    []string            // keys in discovery order
+	methods  map[string][]string // method name -> keys of concrete methods (all parsed packages)
+	typeMeth map[string][]string // "pkgrel:Type" -> method keys
+	handlers []string            // handler roots (closures and method values given to registerPath)
+	fnFields map[string][]string // function-typed tracked field -> keys assigned to it
 }
 
 func (x *accX) fail(p *accPkg, n ast.Node, format string, a ...any) {
